@@ -441,17 +441,3 @@ Fixpoint norm (e : expr) : expr :=
 (* the parser's variable dictionary that corresponds to a scope of the IR *)
 Definition scope_names (nm : naming) (sc : list (N * N)) : list (string * N) :=
   map (fun p => (nm_var nm (fst p), snd p)) sc.
-
-(* ------------------------------------------------------------------ lexical layer (optional second theorem) *)
-(* flat text of an S-expression the way the writer's f-strings lay it out (single blanks) *)
-Fixpoint show (s : sexp) : string :=
-  match s with
-  | Atom a => a
-  | SList l =>
-      String "(" ((fix go (l : list sexp) : string :=
-                     match l with
-                     | [] => ""
-                     | [x] => show x
-                     | x :: r => show x ++ String " " (go r)
-                     end) l ++ ")")
-  end.
